@@ -157,6 +157,7 @@ Qed.
 Lemma dyadic_text_shape s m e t : valid_binary prec emax (S754_finite s m e) = true ->
   e < 0 -> Zpos m mod 2 ^ (- e) <> 0 -> dyadic_text s m e = ARes t ->
   exists ipd fd, t = sgn s ++ ipd ++ 46%N :: fd /\ ipd <> [] /\ all_d ipd = true /\ fd <> [] /\ all_d fd = true /\
+    len fd <= - e /\
     (dval ipd * 10 ^ len fd + dval fd) * 2 ^ 1074 = Zpos m * 2 ^ (e + 1074) * 10 ^ len fd.
 Proof.
   intros V He Hfr. unfold dyadic_text. destruct (canonical_of_valid s m e V) as (_ & Hee & _).
@@ -191,6 +192,7 @@ Proof.
   intros H. injection H as <-. change (if s then [45%N] else []) with (sgn s).
   replace (match fd with [] => [] | _ :: _ => 46%N :: fd end) with (46%N :: fd) by (destruct fd; [congruence|reflexivity]).
   exists ipd, fd. split; [reflexivity|]. split; [exact NEi|]. split; [exact ADi|]. split; [exact NEf|]. split; [exact Afd|].
+  split; [fold K; lia|].
   set (L := len fd) in *. assert (HL : 0 <= L) by (unfold L, len; lia).
   assert (PL : 0 < 10 ^ L) by (apply pow10_pos; lia).
   assert (Pj : 0 < 10 ^ Z.of_nat j) by (apply pow10_pos; lia).
@@ -210,7 +212,7 @@ Qed.
 Theorem dyadic_text_roundtrip s m e t : valid_binary prec emax (S754_finite s m e) = true ->
   e < 0 -> Zpos m mod 2 ^ (- e) <> 0 -> dyadic_text s m e = ARes t -> py_float t = Some (S754_finite s m e).
 Proof.
-  intros V He Hfr H. destruct (dyadic_text_shape s m e t V He Hfr H) as (ipd & fd & -> & NEi & ADi & NEf & Afd & Eq).
+  intros V He Hfr H. destruct (dyadic_text_shape s m e t V He Hfr H) as (ipd & fd & -> & NEi & ADi & NEf & Afd & _ & Eq).
   rewrite py_float_factors. unfold float_with. rewrite (py_dec_pos s ipd fd NEi ADi Afd). cbn [option_map to_flt]. f_equal.
   pose proof (dval_bounds ipd ADi). pose proof (dval_bounds fd Afd).
   assert (HL : 0 <= len fd) by (unfold len; lia). assert (PL : 0 < 10 ^ len fd) by (apply pow10_pos; lia).
@@ -281,12 +283,12 @@ Proof.
         destruct (integral_text_shape false m e z V I) as (ds & -> & NE & AD & _). cbn [sgn app]. apply lit_int; auto.
       * cbn [sf_integral] in I. destruct (Z.leb_spec 0 e) as [L|G]; [discriminate|].
         destruct (Z.eqb_spec (Zpos m mod 2 ^ (- e)) 0) as [M|M]; [discriminate|].
-        destruct (dyadic_text_shape false m e r V G M N) as (ipd & fd & -> & NEi & ADi & NEf & Afd & _).
+        destruct (dyadic_text_shape false m e r V G M N) as (ipd & fd & -> & NEi & ADi & NEf & Afd & _ & _).
         cbn [sgn app]. apply lit_pos; auto.
     + discriminate.
     + destruct (repr_float (S754_finite false m e)) as [r| |] eqn:R; try discriminate.
       intros H. injection H as <-. apply cleanup_is_literal; [exact (repr_float_in_grammar _ _ R)|].
       cbn [repr_float] in R. destruct (short_digits m e) as [[d k]|] eqn:S; [|discriminate]. injection R as <-.
-      destruct (short_digits_sound m e d k S) as [Pd _]. destruct (repr_layout_shape false d k Pd) as [G (j & _ & P)].
+      destruct (short_digits_sound m e d k S) as [Pd _]. destruct (repr_layout_shape false d k Pd) as [G (j & _ & _ & P)].
       exact (ReprG_sign _ _ _ G P).
 Qed.
